@@ -65,6 +65,8 @@ var targets = []target{
 	{dir: ".", files: []string{"event.go"}, funcs: []string{"read"}, out: "Event", joins: true},
 	// the MessageWriter a provider is handed: Session over any response writer
 	{dir: ".", files: []string{"message.go", "message_fields.go", "session.go"}, funcs: []string{"Session.doUpgrade", "Session.Send", "Session.Flush"}, out: "Session", joins: true},
+	// the client's back-off controller (float64 as an abstract carrier, the PRNG as the list of its draws, the clock as a parameter)
+	{dir: ".", files: []string{"client.go", "client_connection.go", "event.go"}, funcs: []string{"nextInterval", "growInterval", "backoffController.reset", "backoffController.next"}, out: "Backoff"},
 }
 
 func die(pos token.Position, format string, a ...any) {
@@ -99,6 +101,8 @@ type tr struct {
 	usesWriter     bool
 	files          []*ast.File
 	sigmaStructs   map[string]bool       // structs with a MessageWriter inside: structure S (σ : Type)
+	phiStructs     map[string]bool       // structs with a float64 inside: structure S (φ : Type)
+	nowParam       bool                  // the current function reads the clock once: parameter (now : Int)
 	extraTy        map[*types.Var]string // Lean types of synthetic variables (the accumulator of an iterator)
 	yieldVar       *types.Var            // in an iterator: the yield parameter …
 	accVar         *types.Var            // … and the state threaded through it
@@ -146,6 +150,7 @@ type fsig struct {
 	iter     bool   // an iterator: called as f(args…)(func literal)
 	dicts    []dictParam
 	spread   int // number of parameters (for f(g()) with a multi-valued g)
+	phi      bool // computes with floats: takes the float operations `fo` before the fuel
 }
 
 func (t *tr) pos(n ast.Node) token.Position { return t.fset.Position(n.Pos()) }
@@ -241,6 +246,10 @@ func (t *tr) leanType(ty types.Type, at ast.Node) string {
 				t.sigmaStructs[name] = true
 				return "(" + name + " σ)"
 			}
+			if t.hasPhi(st, map[*types.Struct]bool{}) {
+				t.phiStructs[name] = true
+				return "(" + name + " φ)"
+			}
 			return name
 		}
 		if u.Obj().Name() == "error" {
@@ -259,6 +268,8 @@ func (t *tr) leanType(ty types.Type, at ast.Node) string {
 			return "Bool"
 		case types.String, types.UntypedString:
 			return "Bytes"
+		case types.Float64, types.UntypedFloat:
+			return "φ" // float64: an abstract carrier with the operations of GoRT.FloatI (`fo`)
 		}
 	case *types.Slice:
 		if b, ok := u.Elem().Underlying().(*types.Basic); ok && b.Kind() == types.Uint8 {
@@ -270,6 +281,9 @@ func (t *tr) leanType(ty types.Type, at ast.Node) string {
 			return "Bytes" // a fixed-size byte array, as a list of that length
 		}
 	case *types.Pointer:
+		if isRandRand(u.Elem()) {
+			return "(List φ)" // *rand.Rand: the draws still to come (GoRT.rngFloat64)
+		}
 		if _, basic := u.Elem().Underlying().(*types.Basic); basic {
 			return "(Option " + t.leanType(u.Elem(), at) + ")" // *uint64: nil or a cell
 		}
@@ -286,6 +300,38 @@ func (t *tr) leanType(ty types.Type, at ast.Node) string {
 	}
 	die(t.pos(at), "type %s", ty)
 	return ""
+}
+
+// isRandRand: math/rand.Rand
+func isRandRand(ty types.Type) bool {
+	n, ok := ty.(*types.Named)
+	return ok && n.Obj().Pkg() != nil && n.Obj().Pkg().Path() == "math/rand" && n.Obj().Name() == "Rand"
+}
+
+// hasPhi: the struct holds a float64 or a *rand.Rand (directly, in a nested struct or behind a pointer)
+func (t *tr) hasPhi(st *types.Struct, seen map[*types.Struct]bool) bool {
+	if seen[st] {
+		return false
+	}
+	seen[st] = true
+	for i := 0; i < st.NumFields(); i++ {
+		ft := st.Field(i).Type()
+		if p, ok := ft.(*types.Pointer); ok {
+			ft = p.Elem()
+		}
+		if b, ok := ft.Underlying().(*types.Basic); ok && b.Kind() == types.Float64 {
+			return true
+		}
+		if isRandRand(ft) {
+			return true
+		}
+		if n, ok := ft.(*types.Named); ok {
+			if s2, ok := n.Underlying().(*types.Struct); ok && t.hasPhi(s2, seen) {
+				return true
+			}
+		}
+	}
+	return false
 }
 
 // isResW: the package's ResponseWriter interface
@@ -332,6 +378,9 @@ func (t *tr) fieldType(f *types.Var, at ast.Node) string {
 	if p, ok := f.Type().(*types.Pointer); ok {
 		if n, ok := p.Elem().(*types.Named); ok && n.Obj().Pkg() != nil && n.Obj().Pkg().Path() == "net/http" {
 			return "Unit"
+		}
+		if isRandRand(p.Elem()) {
+			return "(List φ)"
 		}
 		if _, basic := p.Elem().Underlying().(*types.Basic); !basic {
 			return "(Option " + t.leanType(p.Elem(), at) + ")"
@@ -494,8 +543,14 @@ func (t *tr) constLit(tv types.TypeAndValue, at ast.Node) string {
 		return "false"
 	case constant.String:
 		return bytesLit(constant.StringVal(tv.Value))
+	case constant.Float:
+		num, den := constant.Num(tv.Value), constant.Denom(tv.Value)
+		return fmt.Sprintf("(fo.lit (%s) %s)", num.ExactString(), den.ExactString())
 	case constant.Int:
 		lt := t.leanType(tv.Type, at)
+		if lt == "φ" {
+			return fmt.Sprintf("(fo.lit (%s) 1)", tv.Value.ExactString()) // an integer constant used as a float64
+		}
 		v := tv.Value.ExactString()
 		if strings.HasPrefix(v, "-") {
 			return fmt.Sprintf("(%s : %s)", v, lt)
@@ -634,6 +689,32 @@ func (t *tr) expr(e *em, x ast.Expr) string {
 		}
 		l, r := t.expr(e, v.X), t.expr(e, v.Y)
 		lt := t.leanType(t.info.Types[v.X].Type, v.X)
+		if t.isFloat(v.X) || t.isFloat(v.Y) {
+			// float64: the operations of `fo` (a comparison with NaN is false, != is the negation of ==)
+			switch v.Op {
+			case token.EQL:
+				return "(fo.eq " + l + " " + r + ")"
+			case token.NEQ:
+				return "(!(fo.eq " + l + " " + r + "))"
+			case token.LSS:
+				return "(fo.lt " + l + " " + r + ")"
+			case token.LEQ:
+				return "(fo.le " + l + " " + r + ")"
+			case token.GTR:
+				return "(fo.lt " + r + " " + l + ")"
+			case token.GEQ:
+				return "(fo.le " + r + " " + l + ")"
+			case token.ADD:
+				return "(fo.add " + l + " " + r + ")"
+			case token.SUB:
+				return "(fo.sub " + l + " " + r + ")"
+			case token.MUL:
+				return "(fo.mul " + l + " " + r + ")"
+			case token.QUO:
+				return "(fo.div " + l + " " + r + ")"
+			}
+			die(t.pos(v), "float operator %s", v.Op)
+		}
 		switch v.Op {
 		case token.EQL:
 			return "(" + l + " == " + r + ")"
@@ -764,6 +845,9 @@ func (t *tr) isOptPtr(x ast.Expr) bool {
 	if _, basic := pt.Elem().Underlying().(*types.Basic); basic {
 		return false
 	}
+	if isRandRand(pt.Elem()) {
+		return false // the generator is the list of its draws: never nil
+	}
 	switch d := x.(type) {
 	case *ast.ParenExpr:
 		return t.isOptPtr(d.X)
@@ -830,10 +914,33 @@ func (t *tr) call(e *em, v *ast.CallExpr) string {
 		if from == "UInt64" && to == "Int" {
 			return "(intOfU64 " + t.expr(e, v.Args[0]) + ")" // two's complement
 		}
+		if from == "Int" && to == "φ" {
+			return "(fo.ofInt " + t.expr(e, v.Args[0]) + ")" // float64(n)
+		}
+		if from == "φ" && to == "Int" {
+			return "(fo.toInt " + t.expr(e, v.Args[0]) + ")" // int64(x), time.Duration(x)
+		}
 		if from != to {
 			die(t.pos(v), "conversion %s → %s", from, to)
 		}
 		return t.expr(e, v.Args[0])
+	}
+	if t.isTimeFunc(v, "Now") {
+		return "now" // the clock reading this call of the function was given
+	}
+	if t.isTimeFunc(v, "Since") {
+		return "(now - " + t.expr(e, v.Args[0]) + ")"
+	}
+	// rng.Float64() on a *rand.Rand: the next draw
+	if sel, ok := v.Fun.(*ast.SelectorExpr); ok && sel.Sel.Name == "Float64" && len(v.Args) == 0 {
+		if tv, ok := t.info.Types[sel.X]; ok {
+			if pt, ok := tv.Type.(*types.Pointer); ok && isRandRand(pt.Elem()) {
+				r := t.fresh("draw")
+				e.line("let %s ← rngFloat64 %s", r, t.expr(e, sel.X))
+				t.assignTo(e, sel.X, r+".2", false)
+				return r + ".1"
+			}
+		}
 	}
 	// an iterator applied to a function literal: q.each(i)(func(j int, m T) bool { … })
 	if inner, ok := v.Fun.(*ast.CallExpr); ok {
@@ -1090,8 +1197,62 @@ func (t *tr) call(e *em, v *ast.CallExpr) string {
 	args := append([]string{"fuel"}, t.dictArgs(v, t.sigs[fn])...)
 	args = append(args, t.argList(e, t.sigs[fn], v.Args)...)
 	n := t.fresh("r")
-	e.line("let %s ← %s %s", n, fn, strings.Join(args, " "))
+	e.line("let %s ← %s %s", n, t.withFo(fn), strings.Join(args, " "))
 	return n
+}
+
+// isFloat: an expression of type float64 (or an untyped float constant)
+func (t *tr) isFloat(x ast.Expr) bool {
+	tv, ok := t.info.Types[x]
+	if !ok || tv.Type == nil {
+		return false
+	}
+	b, ok := tv.Type.Underlying().(*types.Basic)
+	return ok && (b.Kind() == types.Float64 || b.Kind() == types.UntypedFloat)
+}
+
+// withFo: a callee that computes with floats is handed the float operations
+func (t *tr) withFo(fn string) string {
+	if fs := t.sigs[fn]; fs != nil && fs.phi {
+		return fn + " fo"
+	}
+	return fn
+}
+
+// readsClock: the body calls time.Now or time.Since (once: the reading is a parameter of the translated function)
+func (t *tr) readsClock(body ast.Node) bool {
+	n := 0
+	ast.Inspect(body, func(x ast.Node) bool {
+		if c, ok := x.(*ast.CallExpr); ok && t.isTimeFunc(c, "Now", "Since") {
+			n++
+		}
+		return true
+	})
+	if n > 1 {
+		die(t.pos(body), "the clock is read %d times in one function", n)
+	}
+	return n == 1
+}
+
+func (t *tr) isTimeFunc(c *ast.CallExpr, names ...string) bool {
+	sel, ok := c.Fun.(*ast.SelectorExpr)
+	if !ok {
+		return false
+	}
+	id, ok := sel.X.(*ast.Ident)
+	if !ok {
+		return false
+	}
+	pn, ok := t.info.Uses[id].(*types.PkgName)
+	if !ok || pn.Imported().Path() != "time" {
+		return false
+	}
+	for _, n := range names {
+		if sel.Sel.Name == n {
+			return true
+		}
+	}
+	return false
 }
 
 func (fs *fsig) anyIO() bool {
@@ -1373,7 +1534,7 @@ func (t *tr) specialMethod(e *em, v *ast.CallExpr) (string, bool) {
 		args := []string{"fuel", t.derefIfOpt(e, sel.X) + t.embedPath(sl)}
 		args = append(args, t.argList(e, fs, v.Args)...)
 		m := t.fresh("m")
-		e.line("let %s ← %s %s", m, mname, strings.Join(args, " "))
+		e.line("let %s ← %s %s", m, t.withFo(mname), strings.Join(args, " "))
 		comps := fs.nres
 		if fs.recvIO {
 			comps++
@@ -1436,7 +1597,7 @@ func (t *tr) genericCall(e *em, callee string, recv ast.Expr, v *ast.CallExpr) s
 		}
 	}
 	n := t.fresh("m")
-	e.line("let %s ← %s %s", n, callee, strings.Join(args, " "))
+	e.line("let %s ← %s %s", n, t.withFo(callee), strings.Join(args, " "))
 	comps := fs.nres + len(backs)
 	proj := func(i int) string {
 		if comps == 1 {
@@ -1551,7 +1712,7 @@ func (t *tr) methodCall(e *em, mname string, v *ast.CallExpr) string {
 		args = append(args, t.expr(e, a))
 	}
 	n := t.fresh("m")
-	e.line("let %s ← %s %s", n, mname, strings.Join(args, " "))
+	e.line("let %s ← %s %s", n, t.withFo(mname), strings.Join(args, " "))
 	// result layout: (result, recv', outs…) — flattened right-nested tuple
 	sig := t.info.Types[v.Fun].Type.(*types.Signature)
 	k := sig.Results().Len()
@@ -2893,6 +3054,14 @@ func (t *tr) function(out *em, fd *ast.FuncDecl, leanName string) {
 		if strings.Contains(p, "π") && !strings.Contains(tps, "{π : Type}") {
 			tps += "{π : Type} "
 		}
+		if strings.Contains(p, "φ") && !strings.Contains(tps, "{φ : Type}") {
+			tps += "{φ : Type} (fo : FloatI φ) " // the float operations, passed down to every callee that computes with floats
+			fs.phi = true
+		}
+	}
+	if t.readsClock(fd.Body) {
+		t.nowParam = true
+		params = append(params, "(now : Int)") // the clock reading of this call (time.Now / time.Since)
 	}
 	if iterLit != nil {
 		tps += "{κ : Type} "
@@ -3125,6 +3294,8 @@ func (t *tr) structDecl(out *em, name string, st *types.Struct) {
 	}
 	if t.sigmaStructs[name] {
 		out.line("structure %s (σ : Type) where", name)
+	} else if t.phiStructs[name] {
+		out.line("structure %s (φ : Type) where", name)
 	} else {
 		out.line("structure %s where", name)
 	}
@@ -3194,7 +3365,7 @@ func main() {
 		conf := types.Config{Importer: chain{checked, importer.ForCompiler(fset, "source", nil)}, Error: func(error) {}} // a partial package: unresolved names elsewhere are not our concern
 		pkg, _ := conf.Check(tg.dir, fset, files, info)
 		checked["github.com/tmaxmax/go-sse/"+tg.dir] = pkg
-		t := &tr{fset: fset, info: info, pkg: pkg, known: known, nilable: map[types.Object]bool{}, structs: map[string]*types.Struct{}, generic: map[string]int{}, genericBinders: map[string]string{}, sigs: sigs, files: files, sigmaStructs: map[string]bool{}, joins: tg.joins}
+		t := &tr{fset: fset, info: info, pkg: pkg, known: known, nilable: map[types.Object]bool{}, structs: map[string]*types.Struct{}, generic: map[string]int{}, genericBinders: map[string]string{}, sigs: sigs, files: files, sigmaStructs: map[string]bool{}, phiStructs: map[string]bool{}, joins: tg.joins}
 		decls := map[string]*ast.FuncDecl{}
 		for _, f := range files {
 			for _, d := range f.Decls {
@@ -3259,6 +3430,11 @@ func main() {
 					}
 				}
 				if fn, ok := ft.(*types.Named); ok {
+					if _, isSt := fn.Underlying().(*types.Struct); isSt && fn.Obj().Pkg() == t.pkg && fn.TypeArgs().Len() == 0 && fn.TypeParams().Len() == 0 {
+						if _, ok := t.structs[fn.Obj().Name()]; !ok {
+							t.leanType(fn, nil) // a struct only ever seen as a field's type: record it (and whether it needs σ / φ)
+						}
+					}
 					if _, ok := t.structs[fn.Obj().Name()]; ok {
 						emit(fn.Obj().Name())
 					}
